@@ -46,7 +46,9 @@ type conflictEdit struct {
 var conflictEdits = []conflictEdit{
 	{"dup-root-field-query", "extend type Query { dupRoot: String }", "extend type Query { dupRoot: String }", "", false},
 	{"dup-root-field-mutation", "type Mutation { dupMut: String }", "type Mutation { dupMut: String }", "", false},
+	{"dup-root-field-underscore", "extend type Query { _dupRoot: String }", "extend type Query { _dupRoot: String }", "", false},
 	{"kind-object-vs-enum", "type Clash { a: Int }", "enum Clash { A B }", "", false},
+	{"kind-underscore-object-vs-enum", "type _Clash { a: Int }", "enum _Clash { A B }", "", false},
 	{"kind-object-vs-input", "type Clash { a: Int }", "input Clash { a: Int }", "", false},
 	{"kind-object-vs-interface", "type Clash { a: Int }", "interface Clash { a: Int }", "", false},
 	{"kind-object-vs-scalar", "type Clash { a: Int }", "scalar Clash", "", false},
